@@ -11,7 +11,7 @@ from vt.core import dev
 from vt.util import close, plain
 
 PENDING = []
-COUNTS = {'mode_twin_tables': 0, 'mode_twin_cells': 0, 'partial_table_reads': 0}
+COUNTS = {'mode_twin_tables': 0, 'mode_twin_cells': 0, 'partial_table_reads': 0, 'inplace_conversion_then_reread': 0}
 
 
 def _table(obj, name, **kw):
@@ -27,7 +27,12 @@ def _num(x):
     return plain(x), False
 
 
+SEEN = []
+
+
 def check(obj, tables=('data_components', 'data_composite'), tag=''):
+    if len(SEEN) < 4:
+        SEEN.append((obj, tables))          # converted in place at the end of the case (drain), after the main oracle is done
     for name in tables:
         if not hasattr(obj, name):
             continue
@@ -92,6 +97,63 @@ def check(obj, tables=('data_components', 'data_composite'), tag=''):
                                    dict(selected=subset, rows_before=list(before), rows_after=None if whole is None else list(whole), differing=wd[:6])))
 
 
+ALT_UNIT = {'Da': 'g', 'g': 'kg', '%': 'ppth', 'g*cm-3': 'kg/m3', 'cm-3': 'm-3'}
+
+
+def check_inplace(obj, tables=('data_components', 'data_composite'), tag=''):
+    """every Quantity handed out by the default reading mode, and the public mass attributes, are converted IN PLACE into
+    another unit (Quantity.to returns self - `table.H2O.mass.to('g')` is the ordinary way to read a cell in grams), then all
+    tables are read again as plain numbers: nothing may change"""
+    try:
+        before = {n: _table(obj, n, quantity=False) for n in tables if hasattr(obj, n)}
+        handed = {n: _table(obj, n) for n in before}
+    except Exception:
+        return
+    done = []
+    try:
+        for n, t in handed.items():
+            for k, row in (t or {}).items():
+                for c, v in row.items():
+                    if hasattr(v, 'magnitude') and hasattr(v, 'to') and v.units() in ALT_UNIT:
+                        v.to(ALT_UNIT[v.units()])
+                        done.append('%s.%s.%s' % (n, k, c))
+        for attr in ('composite_mass', 'component_mass'):
+            v = getattr(obj, attr, None)
+            if hasattr(v, 'magnitude') and hasattr(v, 'to') and v.units() in ALT_UNIT:
+                v.to(ALT_UNIT[v.units()])
+                done.append(attr)
+        for k, comp in (getattr(obj, 'components', None) or {}).items():
+            v = getattr(comp, 'component_mass', None)
+            if hasattr(v, 'magnitude') and hasattr(v, 'to') and v.units() in ALT_UNIT:
+                v.to(ALT_UNIT[v.units()])
+                done.append('components[%s].component_mass' % k)
+    except Exception as e:
+        PENDING.append(dev(tag + 'in-place-conversion-of-a-handed-out-quantity-raises', dict(exc='%s: %s' % (type(e).__name__, str(e)[:200]), done=done[-3:])))
+        return
+    if not done:
+        return
+    COUNTS['inplace_conversion_then_reread'] = COUNTS.get('inplace_conversion_then_reread', 0) + 1
+    for n in before:
+        try:
+            after = _table(obj, n, quantity=False)
+        except Exception as e:
+            PENDING.append(dev(tag + 'table-raises-after-in-place-conversion(%s)' % n, dict(exc='%s: %s' % (type(e).__name__, str(e)[:200]), converted=done[:6])))
+            continue
+        if before[n] is None or after is None:
+            continue
+        diff = [(k, c, plain(before[n][k][c]), plain(after.get(k, {}).get(c))) for k in before[n] for c in before[n][k]
+                if not _close9(before[n][k][c], after.get(k, {}).get(c))]
+        if diff:
+            PENDING.append(dev(tag + 'table-changes-after-in-place-conversion-of-handed-out-quantities(%s)' % n, dict(differing=diff[:6], converted=done[:8], obj=type(obj).__name__)))
+
+
+def _close9(a, b):
+    a, b = plain(a), plain(b)
+    if isinstance(a, float) and isinstance(b, float):
+        return a == b or (a != a and b != b) or close(a, b, 1e-9, 0.0)
+    return a == b
+
+
 def _same(a, b):
     a, b = plain(a), plain(b)
     if isinstance(a, float) and isinstance(b, float):
@@ -101,6 +163,9 @@ def _same(a, b):
 
 def drain(out):
     """merge pending deviations and counters into an outcome dict"""
+    for obj, tables in SEEN:
+        check_inplace(obj, tables)
+    del SEEN[:]
     if PENDING:
         seen = {(d['mech'], d.get('known')) for d in out.get('dev') or []}
         for d in PENDING:
